@@ -1,36 +1,79 @@
 //! The Lean model driver as a child process answering one line per request.
+//! A request that the model does not answer within `TIMEOUT` (pathological fuel-bounded
+//! evaluation of a program that does not terminate, typically a shrink candidate) is abandoned:
+//! the driver is restarted and the answer is `MODEL-TIMEOUT`.
 use std::io::{BufRead, BufReader, Write};
-use std::process::{Child, ChildStdin, ChildStdout, Command, Stdio};
+use std::process::{Child, ChildStdin, Command, Stdio};
+use std::sync::mpsc::{channel, Receiver, RecvTimeoutError};
+use std::time::Duration;
+
+const TIMEOUT: Duration = Duration::from_secs(8);
 
 pub struct Driver {
+    path: String,
     child: Child,
     stdin: ChildStdin,
-    stdout: BufReader<ChildStdout>,
+    lines: Receiver<String>,
+}
+
+fn start(path: &str) -> (Child, ChildStdin, Receiver<String>) {
+    let mut child = Command::new(path)
+        .stdin(Stdio::piped())
+        .stdout(Stdio::piped())
+        .stderr(Stdio::inherit())
+        .spawn()
+        .unwrap_or_else(|e| panic!("cannot start model driver {}: {}", path, e));
+    let stdin = child.stdin.take().unwrap();
+    let stdout = child.stdout.take().unwrap();
+    let (tx, rx) = channel();
+    std::thread::spawn(move || {
+        let mut r = BufReader::new(stdout);
+        loop {
+            let mut line = String::new();
+            match r.read_line(&mut line) {
+                Ok(0) | Err(_) => break,
+                Ok(_) => {
+                    if tx.send(line.trim_end().to_string()).is_err() {
+                        break;
+                    }
+                }
+            }
+        }
+    });
+    (child, stdin, rx)
 }
 
 impl Driver {
     pub fn spawn(path: &str) -> Driver {
-        let mut child = Command::new(path)
-            .stdin(Stdio::piped())
-            .stdout(Stdio::piped())
-            .stderr(Stdio::inherit())
-            .spawn()
-            .unwrap_or_else(|e| panic!("cannot start model driver {}: {}", path, e));
-        let stdin = child.stdin.take().unwrap();
-        let stdout = BufReader::new(child.stdout.take().unwrap());
-        Driver { child, stdin, stdout }
+        let (child, stdin, lines) = start(path);
+        Driver { path: path.to_string(), child, stdin, lines }
+    }
+    fn restart(&mut self) {
+        let _ = self.child.kill();
+        let _ = self.child.wait();
+        let (child, stdin, lines) = start(&self.path);
+        self.child = child;
+        self.stdin = stdin;
+        self.lines = lines;
     }
     pub fn query(&mut self, req: &str) -> String {
         debug_assert!(!req.contains('\n'));
-        self.stdin.write_all(req.as_bytes()).unwrap();
-        self.stdin.write_all(b"\n").unwrap();
-        self.stdin.flush().unwrap();
-        let mut line = String::new();
-        let n = self.stdout.read_line(&mut line).unwrap_or(0);
-        if n == 0 {
+        let ok = self.stdin.write_all(req.as_bytes()).is_ok() && self.stdin.write_all(b"\n").is_ok() && self.stdin.flush().is_ok();
+        if !ok {
+            self.restart();
             return "MODEL-DRIVER-DIED".to_string();
         }
-        line.trim_end().to_string()
+        match self.lines.recv_timeout(TIMEOUT) {
+            Ok(line) => line,
+            Err(RecvTimeoutError::Timeout) => {
+                self.restart();
+                "MODEL-TIMEOUT".to_string()
+            }
+            Err(RecvTimeoutError::Disconnected) => {
+                self.restart();
+                "MODEL-DRIVER-DIED".to_string()
+            }
+        }
     }
 }
 
